@@ -268,6 +268,9 @@ class DrapeMerge(Scenario):
                         conj = [eq(pe[j * 5 + a], P[p][a]) for a in range(3)]
                         for k in range(counts[p]):
                             conj.append(eq(le[(fj + k) * 3 + 2], B[firsts[p] + k]))
+                            # a layer row names the prism it belongs to and its rank in it: (I, K, bottom)
+                            conj.append(eq(le[(fj + k) * 3 + 0], j))
+                            conj.append(eq(le[(fj + k) * 3 + 1], k))
                             if D is not None and mvals is not None and len(mvals) == nl:
                                 conj.append(eq(mvals[fj + k], D[firsts[p] + k]) if not is_nan(mvals[fj + k]) else False)
                         alts.append(And(conj))
